@@ -1,7 +1,9 @@
 (** Lemmas for C19 (an interrupted signature-file write never yields a loadable wrong file)
     over Model/Store.v.  Durability is a property of libhdf5 and the OS: it enters through the
-    [policy] parameter of [crash_disk].  The repository's write order (marker first, data last) is
-    safe under [AtClose] and NOT under [Eager]; both facts are proved. *)
+    [policy] parameter of [crash_disk]; a writer that dies by an EXCEPTION has its file closed by the
+    context manager, so everything it did is on the disk ([raised_disk], the same file as [Eager]).
+    The repaired write order (marker LAST, [dump_ops]) is safe under EVERY policy and for every
+    exception death; the order as found (marker first, [dump_ops_v0]) is safe under [AtClose] only. *)
 From Coq Require Import ZArith List Bool Lia ZifyBool.
 From GV Require Import Model.Store Proofs.C12.
 Import ListNotations.
@@ -10,83 +12,76 @@ Open Scope Z_scope.
 Definition is_prefix {A} (p l : list A) : Prop := exists r, l = p ++ r.
 Definition strict_prefix {A} (p l : list A) : Prop := exists r, r <> [] /\ l = p ++ r.
 
-(** how a write ended: the writer died having completed exactly the calls [done] (the file was
-    never closed), or it ran to completion and closed the file *)
-Inductive outcome := Crashed (done : list op) | Completed.
+(** how a write ended: the writer was KILLED having completed exactly the calls [done] (the file was
+    never closed), it RAISED having completed exactly the calls [done] (the exception unwound through
+    [with h5.File(...)], which closed the file), or it ran to completion and closed the file *)
+Inductive outcome := Crashed (done : list op) | Raised (done : list op) | Completed.
 
-Definition disk_after (pol : policy) (junk : disk) (p : wpath) (c : coll) (o : outcome) : sres disk :=
+(** what is at the path afterwards, for a writer that issues the calls [ops] *)
+Definition disk_after_ops (pol : policy) (junk : disk) (ops : list op) (o : outcome) : sres disk :=
   match o with
   | Crashed done => SOk (crash_disk pol junk done)
-  | Completed => closed_disk (dump_ops p c)
+  | Raised done => raised_disk done
+  | Completed => closed_disk ops
   end.
 
-(** legal outcomes of writing [c]: a crash after any prefix of the calls (including after the last
+Definition disk_after (pol : policy) (junk : disk) (p : wpath) (c : coll) (o : outcome) : sres disk :=
+  disk_after_ops pol junk (dump_ops p c) o.
+(** ... for the write order of the code as found *)
+Definition disk_after_v0 (pol : policy) (junk : disk) (p : wpath) (c : coll) (o : outcome) : sres disk :=
+  disk_after_ops pol junk (dump_ops_v0 p c) o.
+
+(** legal outcomes of writing [c]: death after any prefix of the calls (including after the last
     call, before [close]), or completion *)
 Definition outcome_of (p : wpath) (c : coll) (o : outcome) : Prop :=
-  match o with Crashed done => is_prefix done (dump_ops p c) | Completed => True end.
+  match o with Crashed done | Raised done => is_prefix done (dump_ops p c) | Completed => True end.
 
-(** ---- AtClose --------------------------------------------------------------------------------- *)
+(** the write got through all its calls (it completed, or it died after the last call) *)
+Definition all_calls_done (p : wpath) (c : coll) (o : outcome) : Prop :=
+  match o with Crashed done | Raised done => done = dump_ops p c | Completed => True end.
 
-Lemma unparsable_load : forall d, unparsable d = true ->
-  load_file d = SErr ESigFile /\
-  (load_file_cur d = SErr EOS \/ load_file_cur d = SErr EKey \/ load_file_cur d = SErr ESigFile).
+(** ---- lists --------------------------------------------------------------------------------------- *)
+
+Lemma strict_prefix_removelast : forall {A} (p l : list A), strict_prefix p l -> is_prefix p (removelast l).
 Proof.
-  intros [b|b|st] H; [| |discriminate]; cbn [load_file load_file_cur];
-    destruct (list_eqb (firstn 8 b) magic); auto.
+  intros A p l (r & Hr & ->).
+  destruct (exists_last Hr) as (r' & y & ->).
+  exists r'. rewrite app_assoc, removelast_last. reflexivity.
 Qed.
 
-Lemma C19_atclose_l : forall p c junk done, unparsable junk = true -> is_prefix done (dump_ops p c) ->
-  load_file (crash_disk AtClose junk done) = SErr ESigFile /\
-  (load_file_cur (crash_disk AtClose junk done) = SErr EOS \/
-   load_file_cur (crash_disk AtClose junk done) = SErr EKey \/
-   load_file_cur (crash_disk AtClose junk done) = SErr ESigFile).
-Proof. intros p c junk done Hj _; cbn [crash_disk]; now apply unparsable_load. Qed.
-
-Lemma C19_complete_l : forall p c junk o d l, wf_coll c = true -> unparsable junk = true -> outcome_of p c o ->
-  disk_after AtClose junk p c o = SOk d ->
-  (load_file d = SOk l \/ load_file_cur d = SOk l) ->
-  o = Completed /\ l = loaded_of c /\ decode l = SOk c.(c_sigs).
+Lemma prefix_cases : forall {A} (p l : list A), is_prefix p l -> p = l \/ strict_prefix p l.
 Proof.
-  intros p c junk o d l Hwf Hj Ho Hd Hl; destruct o as [done|].
-  - cbn [disk_after crash_disk] in Hd; inversion Hd; subst d.
-    destruct (unparsable_load junk Hj) as (H1 & H2).
-    destruct Hl as [Hl|Hl]; [rewrite H1 in Hl; discriminate|].
-    destruct H2 as [H2|[H2|H2]]; rewrite H2 in Hl; discriminate.
-  - cbn [disk_after] in Hd; unfold closed_disk in Hd.
-    rewrite (run_dump_ops p c Hwf) in Hd; cbn [sbind] in Hd; inversion Hd; subst d.
-    unfold load_file, load_file_cur in Hl; cbn [attrs attrs_of aget Z.eqb] in Hl.
-    rewrite (load_written p c Hwf) in Hl.
-    assert (l = loaded_of c) by (destruct Hl as [Hl|Hl]; now inversion Hl).
-    subst l; repeat split; apply decode_loaded.
+  intros A p l [[|x r] ->].
+  - left; now rewrite app_nil_r.
+  - right; exists (x :: r); split; [discriminate|reflexivity].
 Qed.
 
-(** ---- Eager: the write order alone is not safe --------------------------------------------- *)
-
-Definition rf_coll : coll :=
-  {| c_k := 3; c_prefix := [65; 84]; c_ty := U8; c_sigs := [[1; 5]; [7]]; c_ids := IdInts I64 [0; 1];
-     c_meta := {| m_id := None; m_name := None; m_id_attr := None; m_version := None; m_desc := None;
-                  m_extra := Some [123; 125] |} |}.
-
-(** killed before the last per-signature write, with every call flushed: the file loads, as a
-    collection whose last signature is zero-filled *)
-Lemma C19_eager_refuted_l :
-  exists p c junk done l,
-    wf_coll c = true /\ strict_prefix done (dump_ops p c) /\
-    load_file (crash_disk Eager junk done) = SOk l /\
-    decode l = SOk [[1; 5]; [0]] /\ decode l <> SOk c.(c_sigs).
+(** what was flushed is a prefix of what was done *)
+Lemma strict_prefix_firstn : forall {A} k (p l : list A), strict_prefix p l -> strict_prefix (firstn k p) l.
 Proof.
-  exists PerSig, rf_coll, (DRaw []), (removelast (dump_ops PerSig rf_coll)).
-  eexists; split; [vm_compute; reflexivity|]; split.
-  - exists [OWrite 1 2 3 [7]]; split; [discriminate|vm_compute; reflexivity].
-  - split; [vm_compute; reflexivity|]; split; [vm_compute; reflexivity|vm_compute; discriminate].
+  intros A k p l (r & Hr & ->); exists (skipn k p ++ r); split.
+  - intros E; apply app_eq_nil in E as [_ E]; now apply Hr.
+  - now rewrite app_assoc, firstn_skipn.
 Qed.
 
-(** ... and where exactly it is safe whatever the flushing: as long as one of the datasets [load]
-    needs has not been created.  For the whole-array path that is every interrupted write
-    ([bounds] is created by the last call); for the per-signature path it is every crash before
-    the [values] dataset is created. *)
-Definition creates (k : Z) (o : op) : bool :=
-  match o with OCreate k' _ => k =? k' | OCreateZero k' _ _ => k =? k' | _ => false end.
+Lemma firstn_cases : forall {A} k (l : list A), firstn k l = l \/ strict_prefix (firstn k l) l.
+Proof.
+  intros A k l; apply prefix_cases; exists (skipn k l); now rewrite firstn_skipn.
+Qed.
+
+Lemma strict_is_prefix : forall {A} (p l : list A), strict_prefix p l -> is_prefix p l.
+Proof. intros A p l (r & _ & ->); now exists r. Qed.
+
+Lemma forallb_prefix : forall {A} (f : A -> bool) p l, is_prefix p l -> forallb f l = true -> forallb f p = true.
+Proof. intros A f p l [r ->] H; rewrite forallb_app in H; now apply andb_true_iff in H as [H _]. Qed.
+
+(** a prefix of a call sequence that runs, runs *)
+Lemma run_prefix_ok : forall done ops st st', is_prefix done ops -> run ops st = SOk st' ->
+  exists st1, run done st = SOk st1.
+Proof.
+  intros done ops st st' [r ->] H; rewrite run_app in H.
+  destruct (run done st) as [st1|e]; [now exists st1|discriminate].
+Qed.
 
 Lemma aget_aset_other : forall {V} k k' (v : V) l, (k =? k') = false -> aget k (aset k' v l) = aget k l.
 Proof.
@@ -96,6 +91,250 @@ Proof.
     + apply Z.eqb_eq in E; subst; now rewrite H.
     + destruct (k =? k2); [reflexivity|now apply IH].
 Qed.
+
+(** ---- files that cannot be parsed ----------------------------------------------------------------- *)
+
+Lemma unparsable_load : forall d, unparsable d = true ->
+  load_file d = SErr ESigFile /\
+  (load_file_cur d = SErr EOS \/ load_file_cur d = SErr EKey \/ load_file_cur d = SErr ESigFile).
+Proof.
+  intros [b|b|st] H; [| |discriminate]; cbn [load_file load_file_cur];
+    destruct (list_eqb (firstn 8 b) magic); auto.
+Qed.
+
+(** ---- AtClose: any order of the calls ----------------------------------------------------------- *)
+
+Lemma C19_atclose_l : forall p c junk done, unparsable junk = true -> is_prefix done (dump_ops p c) ->
+  load_file (crash_disk AtClose junk done) = SErr ESigFile /\
+  (load_file_cur (crash_disk AtClose junk done) = SErr EOS \/
+   load_file_cur (crash_disk AtClose junk done) = SErr EKey \/
+   load_file_cur (crash_disk AtClose junk done) = SErr ESigFile).
+Proof. intros p c junk done Hj _; cbn [crash_disk]; now apply unparsable_load. Qed.
+
+(** the same for the order as found: what a KILLED writer leaves does not depend on the order *)
+Lemma C19_marker_first_atclose_l : forall p c junk done, unparsable junk = true -> is_prefix done (dump_ops_v0 p c) ->
+  load_file (crash_disk AtClose junk done) = SErr ESigFile /\
+  (load_file_cur (crash_disk AtClose junk done) = SErr EOS \/
+   load_file_cur (crash_disk AtClose junk done) = SErr EKey \/
+   load_file_cur (crash_disk AtClose junk done) = SErr ESigFile).
+Proof. intros p c junk done Hj _; cbn [crash_disk]; now apply unparsable_load. Qed.
+
+(** ---- the marker is last: every strict prefix leaves a group without the marker ------------------ *)
+
+Definition sets_marker (o : op) : bool := match o with OSetAttr k _ => k =? 0 | _ => false end.
+Definition no_marker (ops : list op) : bool := forallb (fun o => negb (sets_marker o)) ops.
+
+Lemma run_keeps_unmarked : forall ops st st',
+  run ops st = SOk st' -> no_marker ops = true -> aget 0 st.(attrs) = None -> aget 0 st'.(attrs) = None.
+Proof.
+  unfold no_marker; induction ops as [|o ops IH]; intros st st' Hr Hc Ha; cbn [run] in Hr.
+  - now inversion Hr; subst.
+  - cbn [forallb] in Hc; apply andb_true_iff in Hc as [Ho Hc].
+    destruct (run_op o st) as [st1|e] eqn:E; cbn [sbind] in Hr; [|discriminate].
+    apply (IH st1 st' Hr Hc).
+    destruct o as [k v|k d|k t n|k a b data]; cbn [run_op sets_marker] in E, Ho.
+    + destruct (aval_ok v); inversion E; subst; cbn [attrs].
+      rewrite aget_aset_other; [exact Ha|]. destruct (k =? 0) eqn:K; [discriminate|].
+      rewrite Z.eqb_sym; exact K.
+    + destruct (aget k (dsets st)); [discriminate|].
+      destruct (dset_ok d); inversion E; subst; exact Ha.
+    + destruct (aget k (dsets st)); [discriminate|].
+      destruct (n <? 0); inversion E; subst; exact Ha.
+    + destruct (aget k (dsets st)) as [[t old|sd]|]; try discriminate.
+      destruct ((0 <=? a) && (a <=? b) && (b <=? zlen old) && (zlen data =? b - a)); inversion E; subst; exact Ha.
+Qed.
+
+Lemma sig_writes_no_marker : forall sigs off, no_marker (sig_writes off sigs) = true.
+Proof. unfold no_marker; induction sigs as [|s sigs IH]; intros off; cbn [sig_writes forallb sets_marker negb andb]; auto. Qed.
+
+Lemma body_no_marker : forall p c, no_marker (body_ops p c) = true.
+Proof.
+  intros p c; unfold no_marker, body_ops; rewrite forallb_app; apply andb_true_iff; split; [reflexivity|].
+  destruct p; [reflexivity|].
+  unfold data_ops; cbn [forallb sets_marker negb andb app]. apply sig_writes_no_marker.
+Qed.
+
+Lemma strict_prefix_body : forall p c done, strict_prefix done (dump_ops p c) -> is_prefix done (body_ops p c).
+Proof.
+  intros p c done H; apply strict_prefix_removelast in H.
+  unfold dump_ops in H; now rewrite removelast_last in H.
+Qed.
+
+(** the heart of the repair: while the write is incomplete the group does not carry the marker *)
+Lemma marker_last_unmarked : forall p c done st, strict_prefix done (dump_ops p c) ->
+  run done empty_store = SOk st -> aget 0 st.(attrs) = None.
+Proof.
+  intros p c done st H R; apply (run_keeps_unmarked done empty_store st R); [|reflexivity].
+  apply (forallb_prefix _ _ _ (strict_prefix_body p c done H)); apply body_no_marker.
+Qed.
+
+Lemma unmarked_load : forall st, aget 0 st.(attrs) = None ->
+  load_file (DHdf st) = SErr ESigFile /\ load_file_cur (DHdf st) = SErr ESigFile.
+Proof. intros st H; cbn [load_file load_file_cur]; now rewrite H. Qed.
+
+(** EVERY strict prefix of the calls is refused under EVERY durability policy *)
+Lemma C19_marker_last_any_policy_l : forall pol p c junk done, unparsable junk = true -> strict_prefix done (dump_ops p c) ->
+  load_file (crash_disk pol junk done) = SErr ESigFile /\
+  (load_file_cur (crash_disk pol junk done) = SErr EOS \/
+   load_file_cur (crash_disk pol junk done) = SErr EKey \/
+   load_file_cur (crash_disk pol junk done) = SErr ESigFile).
+Proof.
+  intros pol p c junk done Hj H; destruct pol as [| |k]; cbn [crash_disk]; [now apply unparsable_load| |].
+  - destruct (run done empty_store) as [st|e] eqn:R; [|now apply unparsable_load].
+    destruct (unmarked_load st (marker_last_unmarked p c done st H R)) as (H1 & H2); auto.
+  - destruct (run (firstn k done) empty_store) as [st|e] eqn:R; [|now apply unparsable_load].
+    destruct (unmarked_load st (marker_last_unmarked p c _ st (strict_prefix_firstn k _ _ H) R)) as (H1 & H2); auto.
+Qed.
+
+(** the form asked for: some error, both readers *)
+Lemma C19_marker_last_any_policy_ex_l : forall pol p c junk done, unparsable junk = true -> strict_prefix done (dump_ops p c) ->
+  (exists e, load_file (crash_disk pol junk done) = SErr e) /\
+  (exists e, load_file_cur (crash_disk pol junk done) = SErr e).
+Proof.
+  intros pol p c junk done Hj H.
+  destruct (C19_marker_last_any_policy_l pol p c junk done Hj H) as (H1 & [H2|[H2|H2]]); split; eauto.
+Qed.
+
+(** death by an exception: the file IS a well-formed HDF5 file holding everything done so far, and
+    it is refused with SignaturesFileError by both readers -- at every point of every write *)
+Lemma C19_exception_death_l : forall p c done, wf_coll c = true -> strict_prefix done (dump_ops p c) ->
+  exists st, run done empty_store = SOk st /\
+             disk_after Eager (DRaw []) p c (Raised done) = SOk (DHdf st) /\
+             load_file (DHdf st) = SErr ESigFile /\ load_file_cur (DHdf st) = SErr ESigFile.
+Proof.
+  intros p c done Hwf H.
+  destruct (run_prefix_ok done _ _ _ (strict_is_prefix _ _ H) (run_dump_ops p c Hwf)) as (st & R).
+  exists st; split; [exact R|]; split.
+  - unfold disk_after, disk_after_ops, raised_disk, closed_disk; now rewrite R.
+  - apply unmarked_load, (marker_last_unmarked p c done st H R).
+Qed.
+
+(** ... without the well-formedness hypothesis: whenever the calls [done] ran at all *)
+Lemma C19_exception_death_any_l : forall p c done d, strict_prefix done (dump_ops p c) ->
+  raised_disk done = SOk d -> load_file d = SErr ESigFile /\ load_file_cur d = SErr ESigFile.
+Proof.
+  intros p c done d H Hd; unfold raised_disk, closed_disk in Hd.
+  destruct (run done empty_store) as [st|e] eqn:R; cbn [sbind] in Hd; [|discriminate].
+  inversion Hd; subst d. apply unmarked_load, (marker_last_unmarked p c done st H R).
+Qed.
+
+(** ---- a file that loads comes from a write that got through all its calls ------------------------ *)
+
+Lemma full_disk_loads : forall p c l, wf_coll c = true ->
+  (load_file (DHdf {| attrs := attrs_of c; dsets := dsets_of p c |}) = SOk l \/
+   load_file_cur (DHdf {| attrs := attrs_of c; dsets := dsets_of p c |}) = SOk l) ->
+  l = loaded_of c /\ decode l = SOk c.(c_sigs).
+Proof.
+  intros p c l Hwf Hl; unfold load_file, load_file_cur in Hl; cbn [attrs] in Hl.
+  rewrite marker_written, (load_written p c Hwf) in Hl.
+  assert (l = loaded_of c) by (destruct Hl as [Hl|Hl]; now inversion Hl).
+  subst l; split; [reflexivity|apply decode_loaded].
+Qed.
+
+Lemma C19_complete_any_policy_l : forall pol p c junk o d l, wf_coll c = true -> unparsable junk = true ->
+  outcome_of p c o -> disk_after pol junk p c o = SOk d ->
+  (load_file d = SOk l \/ load_file_cur d = SOk l) ->
+  all_calls_done p c o /\ l = loaded_of c /\ decode l = SOk c.(c_sigs).
+Proof.
+  intros pol p c junk o d l Hwf Hj Ho Hd Hl; destruct o as [done|done|]; cbn [outcome_of all_calls_done] in *.
+  - destruct (prefix_cases _ _ Ho) as [E|S].
+    + subst done; split; [reflexivity|].
+      unfold disk_after, disk_after_ops in Hd; inversion Hd; subst d; clear Hd.
+      destruct pol as [| |k]; cbn [crash_disk] in Hl.
+      * destruct (unparsable_load junk Hj) as (H1 & H2).
+        destruct Hl as [Hl|Hl]; [rewrite H1 in Hl; discriminate|].
+        destruct H2 as [H2|[H2|H2]]; rewrite H2 in Hl; discriminate.
+      * rewrite (run_dump_ops p c Hwf) in Hl. now apply (full_disk_loads p c l Hwf).
+      * destruct (firstn_cases k (dump_ops p c)) as [E|S].
+        -- rewrite E, (run_dump_ops p c Hwf) in Hl. now apply (full_disk_loads p c l Hwf).
+        -- exfalso.
+           assert (Hr : load_file (crash_disk Eager junk (firstn k (dump_ops p c))) = SErr ESigFile /\
+                        (load_file_cur (crash_disk Eager junk (firstn k (dump_ops p c))) = SErr EOS \/
+                         load_file_cur (crash_disk Eager junk (firstn k (dump_ops p c))) = SErr EKey \/
+                         load_file_cur (crash_disk Eager junk (firstn k (dump_ops p c))) = SErr ESigFile))
+             by (now apply (C19_marker_last_any_policy_l Eager p c)).
+           cbn [crash_disk] in Hr. destruct Hr as (H1 & H2).
+           destruct Hl as [Hl|Hl]; [rewrite H1 in Hl; discriminate|].
+           destruct H2 as [H2|[H2|H2]]; rewrite H2 in Hl; discriminate.
+    + exfalso. unfold disk_after, disk_after_ops in Hd; inversion Hd; subst d; clear Hd.
+      destruct (C19_marker_last_any_policy_l pol p c junk done Hj S) as (H1 & H2).
+      destruct Hl as [Hl|Hl]; [rewrite H1 in Hl; discriminate|].
+      destruct H2 as [H2|[H2|H2]]; rewrite H2 in Hl; discriminate.
+  - unfold disk_after, disk_after_ops in Hd.
+    destruct (prefix_cases _ _ Ho) as [E|S].
+    + subst done; split; [reflexivity|].
+      unfold raised_disk, closed_disk in Hd; rewrite (run_dump_ops p c Hwf) in Hd; cbn [sbind] in Hd.
+      inversion Hd; subst d. now apply (full_disk_loads p c l Hwf).
+    + exfalso. destruct (C19_exception_death_any_l p c done d S Hd) as (H1 & H2).
+      destruct Hl as [Hl|Hl]; [rewrite H1 in Hl|rewrite H2 in Hl]; discriminate.
+  - split; [exact I|].
+    unfold disk_after, disk_after_ops, closed_disk in Hd.
+    rewrite (run_dump_ops p c Hwf) in Hd; cbn [sbind] in Hd; inversion Hd; subst d.
+    now apply (full_disk_loads p c l Hwf).
+Qed.
+
+(** the statement as it was before the repair (policy AtClose), now over the outcomes incl. [Raised]:
+    under AtClose a KILLED writer never leaves a loadable file, so a file that loads comes from a completed
+    write or from a writer that raised after its last call *)
+Lemma C19_complete_l : forall p c junk o d l, wf_coll c = true -> unparsable junk = true -> outcome_of p c o ->
+  disk_after AtClose junk p c o = SOk d ->
+  (load_file d = SOk l \/ load_file_cur d = SOk l) ->
+  (o = Completed \/ o = Raised (dump_ops p c)) /\ l = loaded_of c /\ decode l = SOk c.(c_sigs).
+Proof.
+  intros p c junk o d l Hwf Hj Ho Hd Hl.
+  destruct (C19_complete_any_policy_l AtClose p c junk o d l Hwf Hj Ho Hd Hl) as (Ha & H2).
+  split; [|exact H2].
+  destruct o as [done|done|]; cbn [all_calls_done] in Ha; [|right; now subst|now left].
+  exfalso. unfold disk_after, disk_after_ops in Hd; inversion Hd; subst d; cbn [crash_disk] in Hl.
+  destruct (unparsable_load junk Hj) as (H1 & H3).
+  destruct Hl as [Hl|Hl]; [rewrite H1 in Hl; discriminate|].
+  destruct H3 as [H3|[H3|H3]]; rewrite H3 in Hl; discriminate.
+Qed.
+
+(** ---- the order as found (marker first) is NOT safe once the calls reach the disk ---------------- *)
+
+Definition rf_coll : coll :=
+  {| c_k := 3; c_prefix := [65; 84]; c_ty := U8; c_sigs := [[1; 5]; [7]]; c_ids := IdInts I64 [0; 1];
+     c_meta := {| m_id := None; m_name := None; m_id_attr := None; m_version := None; m_desc := None;
+                  m_extra := Some [123; 125] |} |}.
+
+(** killed before the last per-signature write, with every call flushed: the file loads, as a
+    collection whose last signature is zero-filled *)
+Lemma C19_marker_first_eager_refuted_l :
+  exists p c junk done l,
+    wf_coll c = true /\ strict_prefix done (dump_ops_v0 p c) /\
+    load_file (crash_disk Eager junk done) = SOk l /\
+    decode l = SOk [[1; 5]; [0]] /\ decode l <> SOk c.(c_sigs).
+Proof.
+  exists PerSig, rf_coll, (DRaw []), (removelast (dump_ops_v0 PerSig rf_coll)).
+  eexists; split; [vm_compute; reflexivity|]; split.
+  - exists [OWrite 1 2 3 [7]]; split; [discriminate|vm_compute; reflexivity].
+  - split; [vm_compute; reflexivity|]; split; [vm_compute; reflexivity|vm_compute; discriminate].
+Qed.
+
+(** the defect of the code as found: the writer RAISES (Ctrl-C, MemoryError, an I/O error, an exception
+    of the signature source) before the last per-signature write; h5py closes the file cleanly; the
+    file loads, as a collection whose last signature is zero-filled *)
+Lemma C19_marker_first_raised_refuted_l :
+  exists p c done d l,
+    wf_coll c = true /\ strict_prefix done (dump_ops_v0 p c) /\
+    disk_after_v0 AtClose (DRaw []) p c (Raised done) = SOk d /\
+    load_file d = SOk l /\ load_file_cur d = SOk l /\
+    decode l = SOk [[1; 5]; [0]] /\ decode l <> SOk c.(c_sigs).
+Proof.
+  exists PerSig, rf_coll, (removelast (dump_ops_v0 PerSig rf_coll)).
+  eexists; eexists; split; [vm_compute; reflexivity|]; split.
+  - exists [OWrite 1 2 3 [7]]; split; [discriminate|vm_compute; reflexivity].
+  - split; [vm_compute; reflexivity|]. split; [vm_compute; reflexivity|]. split; [vm_compute; reflexivity|].
+    split; [vm_compute; reflexivity|vm_compute; discriminate].
+Qed.
+
+(** ... and where exactly the order as found is safe whatever the flushing: as long as one of the
+    datasets [load] needs has not been created.  For the whole-array path that is every interrupted
+    write ([bounds] is created by the last call); for the per-signature path it is every death before
+    the [values] dataset is created. *)
+Definition creates (k : Z) (o : op) : bool :=
+  match o with OCreate k' _ => k =? k' | OCreateZero k' _ _ => k =? k' | _ => false end.
 
 Lemma run_keeps_absent : forall k ops st st',
   run ops st = SOk st' -> aget k st.(dsets) = None ->
@@ -139,16 +378,13 @@ Proof.
   - destruct (aget 1 (dsets st)) as [[]|]; eauto.
 Qed.
 
-Definition safe_part (p : wpath) (c : coll) : list op :=
+Definition safe_part_v0 (p : wpath) (c : coll) : list op :=
   match p with
-  | Whole => removelast (dump_ops Whole c)
-  | PerSig => attr_ops c ++ firstn 4 (data_ops PerSig c)
+  | Whole => removelast (dump_ops_v0 Whole c)
+  | PerSig => marker_op :: attr_ops c ++ firstn 4 (data_ops PerSig c)
   end.
 
-Lemma forallb_prefix : forall {A} (f : A -> bool) p l, is_prefix p l -> forallb f l = true -> forallb f p = true.
-Proof. intros A f p l [r ->] H; rewrite forallb_app in H; now apply andb_true_iff in H as [H _]. Qed.
-
-Lemma C19_eager_window_l : forall p c junk done, unparsable junk = true -> is_prefix done (safe_part p c) ->
+Lemma C19_marker_first_eager_window_l : forall p c junk done, unparsable junk = true -> is_prefix done (safe_part_v0 p c) ->
   exists e, load_file (crash_disk Eager junk done) = SErr e.
 Proof.
   intros p c junk done Hj Hp; cbn [crash_disk].
@@ -164,18 +400,10 @@ Proof.
   - destruct (unparsable_load junk Hj) as (H1 & _); eauto.
 Qed.
 
-(** every strict prefix of the whole-array write is a prefix of its safe part *)
-Lemma strict_prefix_removelast : forall {A} (p l : list A), strict_prefix p l -> is_prefix p (removelast l).
-Proof.
-  intros A p l (r & Hr & ->).
-  destruct (exists_last Hr) as (r' & y & ->).
-  exists r'. rewrite app_assoc, removelast_last. reflexivity.
-Qed.
-
-Lemma C19_eager_whole_l : forall c junk done, unparsable junk = true -> strict_prefix done (dump_ops Whole c) ->
+Lemma C19_marker_first_eager_whole_l : forall c junk done, unparsable junk = true -> strict_prefix done (dump_ops_v0 Whole c) ->
   exists e, load_file (crash_disk Eager junk done) = SErr e.
 Proof.
-  intros c junk done Hj H; apply (C19_eager_window_l Whole c); [exact Hj|]; cbn [safe_part].
+  intros c junk done Hj H; apply (C19_marker_first_eager_window_l Whole c); [exact Hj|]; cbn [safe_part_v0].
   now apply strict_prefix_removelast.
 Qed.
 
@@ -185,5 +413,25 @@ Example ex19_complete : exists d, disk_after AtClose (DRaw []) PerSig rf_coll Co
                                   load_file d = SOk (loaded_of rf_coll).
 Proof. eexists; split; vm_compute; reflexivity. Qed.
 
-Example ex19_prefixes : length (dump_ops PerSig rf_coll) = 16%nat /\ length (dump_ops Whole rf_coll) = 12%nat.
-Proof. split; reflexivity. Qed.
+Example ex19_prefixes : length (dump_ops PerSig rf_coll) = 16%nat /\ length (dump_ops Whole rf_coll) = 12%nat /\
+                        last (dump_ops PerSig rf_coll) marker_op = marker_op /\ hd marker_op (dump_ops_v0 Whole rf_coll) = marker_op.
+Proof. repeat split; reflexivity. Qed.
+
+(** the death point of the refuted theorems (every call but the last per-signature write done), in the
+    repaired order: refused under Eager, and refused when the writer raised there *)
+Example ex19_marker_last_same_point :
+  let done := removelast (removelast (dump_ops PerSig rf_coll)) in
+  strict_prefix done (dump_ops PerSig rf_coll) /\
+  load_file (crash_disk Eager (DRaw []) done) = SErr ESigFile /\
+  exists d, disk_after AtClose (DRaw []) PerSig rf_coll (Raised done) = SOk d /\ unparsable d = false /\
+            load_file d = SErr ESigFile /\ load_file_cur d = SErr ESigFile.
+Proof.
+  split; [exists [OWrite 1 2 3 [7]; marker_op]; split; [discriminate|vm_compute; reflexivity]|].
+  split; [vm_compute; reflexivity|]. eexists; repeat split; vm_compute; reflexivity.
+Qed.
+
+(** a writer that raises after its last call (or is killed there with everything flushed) leaves the complete file *)
+Example ex19_all_calls_done : exists d, disk_after AtClose (DRaw []) PerSig rf_coll (Raised (dump_ops PerSig rf_coll)) = SOk d /\
+                                        load_file d = SOk (loaded_of rf_coll) /\
+                                        load_file (crash_disk Eager (DRaw []) (dump_ops PerSig rf_coll)) = SOk (loaded_of rf_coll).
+Proof. eexists; repeat split; vm_compute; reflexivity. Qed.
